@@ -211,6 +211,18 @@ StrNotNumber(s) == \/ s = <<>> \/ (\E i \in 1..Len(s) : ~(s[i] \in FloatAlphabet
                    \/ ((\E i \in 1..Len(s) : s[i] \in {120, 88}) /\ ~(\E i \in 1..Len(s) : s[i] \in {112, 80}))
 StrNumKnown(s) == PlainDec(s).ok \/ StrNotNumber(s)
 StrNum(s) == LET d == PlainDec(s) IN IF d.ok THEN FFromDecimal(d.neg, d.ds, d.e10) ELSE FZero(FALSE)
+\* the timestamp a datetime() subject denotes: an integer, or text (what grok extracts) made of decimal digits without a leading zero,
+\* possibly followed by a fraction of zeros only ("1638253518", "1638253518.000"); other texts are not specified here
+TsOf(v) ==
+  IF v.t = "int" THEN [ok |-> TRUE, i |-> v.i]
+  ELSE IF v.t # "str" \/ v.s = <<>> THEN [ok |-> FALSE, i |-> IZero]
+  ELSE LET dot == FirstOf(v.s, {46})
+           ip == IF dot = 0 THEN v.s ELSE SubSeq(v.s, 1, dot - 1)
+           fp == IF dot = 0 THEN <<>> ELSE SubSeq(v.s, dot + 1, Len(v.s))
+       IN IF /\ ip # <<>> /\ (\A k \in 1..Len(ip) : ip[k] >= 48 /\ ip[k] <= 57) /\ (ip[1] # 48 \/ Len(ip) = 1)
+             /\ Len(ip) <= 15 /\ (dot = 0 \/ (fp # <<>> /\ \A k \in 1..Len(fp) : fp[k] = 48))
+            THEN [ok |-> TRUE, i |-> IMk(FALSE, BnFromDec([k \in 1..Len(ip) |-> ip[k] - 48]))]
+          ELSE [ok |-> FALSE, i |-> IZero]
 \* float -> int64 by truncation (only values below 2^53 are used)
 FTrunc(f) == IF f.c # "fin" \/ f.man = <<>> THEN IZero
              ELSE IF f.exp >= 0 THEN IMk(f.neg, BnShl(f.man, f.exp)) ELSE IMk(f.neg, BnShr(f.man, 0 - f.exp))
@@ -854,8 +866,8 @@ EvalCall(e, st) ==
                 g == GetKey(st, kn.n)
                 lg == [st EXCEPT !.log = Append(@, [ev |-> "call", k |-> "datetime"])] IN
             IF ~g.found THEN R(lg, VVoid)
-            ELSE IF g.v.t # "int" THEN E(st, "unspec-subject")
-            ELSE LET q == DatetimeLookup(g.v.i, e.as[2].s, e.as[3].s) IN
+            ELSE IF ~TsOf(g.v).ok THEN E(st, "unspec-subject")
+            ELSE LET q == DatetimeLookup(TsOf(g.v).i, e.as[2].s, e.as[3].s) IN
                  IF ~q.known THEN E(st, "unspec-engine")
                  ELSE IF ~q.e.ok THEN E(st, "data-error")
                  ELSE R([lg EXCEPT !.pt = PtSetField(@, Alias(kn.n), VStr(q.e.out))], VVoid))
